@@ -2223,6 +2223,8 @@ class Interp:
                     return None
                 w = cover[(o, s)]
                 t = ('int', w.bits) if w.kind in ('i', 'b') else ('fp', w.bits) if w.kind == 'f' else ('ptr', None) if w.kind == 'p' else None
+                if t is None and w.kind == 'u' and any(cover[k_].kind != 'u' for k_ in tiles):
+                    t = ('undef', 8 * s)      # an indeterminate piece (e.g. the padding lane of a padded vector) next to defined ones
                 if t is None:
                     return None
                 out.append((o, t))
@@ -2244,7 +2246,11 @@ class Interp:
         parts = []
         acc = None
         for (o, t) in pieces:
-            v = self.load_scalar(mem, t, base, o)
+            if t[0] == 'undef':
+                # indeterminate bytes inside the word: an opaque atom, harmless unless it reaches an output or a branch
+                v = IntV(t[1], atom('undef_i%d' % t[1], sym(base_name(base)), sp.Integer(o)))
+            else:
+                v = self.load_scalar(mem, t, base, o)
             if v.kind == 'p':
                 raise Undecided('pointer inside a packed integer load')
             parts.append((o - off, v))
